@@ -9,7 +9,7 @@ ID = "C08"
 LEVEL = "exploration"
 TECHNIQUE = "exhaustive enumeration of sense buffers (response codes x valid bit x sense keys x all 65536 ASC/ASCQ pairs x all lengths 1..252 x filler bytes); construction, str(), print() and print_data must not raise and key/ASC/ASCQ are compared with SPC's positions extracted by the independent bit oracle"
 RULE = ("quick: all 65536 ASC/ASCQ pairs x response codes {70h,72h} (key 5) + {71h,73h} (key 6); 16 keys x 9 response codes {70-73,00,6F,74,7E,7F} "
-        "x valid bit x 64 ASC/ASCQ pairs; every length 1..252 x 9 response codes x filler {00,FF} (canonical tail) with and without print_data; all ordered pairs and triples of 12 sense buffers built in sequence and kept alive, each compared afterwards with what it reports alone; "
+        "x valid bit x 64 ASC/ASCQ pairs; every length 1..252 x 9 response codes x filler {00,FF} x ADDITIONAL SENSE LENGTH {exact n-7, 0, FFh} with and without print_data; all ordered pairs and triples of 12 sense buffers built in sequence and kept alive, each compared afterwards with what it reports alone; "
         "thorough: the full product 9 codes x 2 valid x 16 keys x 65536 pairs. Non-trivial = anything other than the all-zero 18-byte fixed "
         "buffer; distinct = distinct buffers (x print flag).")
 ASSUMPTIONS = [
@@ -48,21 +48,21 @@ def norm(s):
     return "".join(ch for ch in s.upper() if ch.isalnum())
 
 
-def make(code, valid, key, asc, ascq, length=None, filler=0x00):
-    if code in (0x72, 0x73):
-        b = bytearray([filler]) * max(length or 8, 8)
-        b[0] = code | (0x80 if valid else 0)
+def make(code, valid, key, asc, ascq, length=None, filler=0x00, adl="exact"):
+    """sense buffer; adl: ADDITIONAL SENSE LENGTH = 'exact' (n-7 of the buffer actually returned, the well-formed value), 0 or 0xFF"""
+    desc = code in (0x72, 0x73)
+    b = bytearray([filler]) * max(length or (8 if desc else 18), 8 if desc else 18)
+    b[0] = code | (0x80 if valid else 0)
+    if desc:
         b[1] = (filler & 0xF0) | key
         b[2], b[3] = asc, ascq
-        b[7] = max(len(b) - 8, 0) if filler == 0 else b[7]
     else:
-        b = bytearray([filler]) * max(length or 18, 18)
-        b[0] = code | (0x80 if valid else 0)
         b[2] = (filler & 0xF0) | key
         b[12], b[13] = asc, ascq
-        b[7] = max(len(b) - 8, 0) if filler == 0 else b[7]
     if length is not None:
         b = b[:length]
+    if len(b) > 7:
+        b[7] = max(len(b) - 8, 0) if adl == "exact" else adl
     return bytes(b)
 
 
@@ -228,8 +228,9 @@ def run_partition(part, tier, seed):
         c = part[1]
         for n in range(1, 253):
             for filler in (0x00, 0xFF):
-                for show in (False, True):
-                    do(make(c, 1, 3, 0x11, 0x00, length=n, filler=filler), show)
+                for adl in ("exact", 0, 0xFF):
+                    for show in (False, True):
+                        do(make(c, 1, 3, 0x11, 0x04, length=n, filler=filler, adl=adl), show)
     else:
         _, c, v, k = part
         for asc in range(256):
